@@ -87,7 +87,21 @@ func Replay(g *graph.G, walk []int, scratch string, depth int, seed int64, f For
 					next = oi
 				}
 			}
+			pinsAgree := func() {
+				if sr.Outcome == "failed" || sr.Outcome == "unusable" {
+					return
+				}
+				if len(sr.Pins) == 0 {
+					div(i, "C05", "nothing-advertised", "the run shows no fingerprint at start-up")
+				}
+				for _, p := range sr.Pins {
+					if p.FP != sr.FP {
+						div(i, "C05", "advertised-fingerprint:"+p.Where, "%s shows pin %q, but the certificate presented in handshakes has SPKI hash %q", p.Where, p.FP, sr.FP)
+					}
+				}
+			}
 			if next < 0 {
+				pinsAgree() // whatever the run was allowed to do, what it advertises must be what it serves
 				switch {
 				case sr.Outcome == "unusable":
 					div(i, "C08", "unusable-key-served", "with a %s cache file (%s) the run started and advertises a fingerprint, but no handshake with it succeeds: %v", from.Fst, from.Fcls, sr.Err)
@@ -131,14 +145,7 @@ func Replay(g *graph.G, walk []int, scratch string, depth int, seed int64, f For
 			}
 			if sr.Outcome != "failed" {
 				curFP = sr.FP
-				if len(sr.Pins) == 0 {
-					div(i, "C05", "nothing-advertised", "the run shows no fingerprint at start-up")
-				}
-				for _, p := range sr.Pins {
-					if p.FP != sr.FP {
-						div(i, "C05", "advertised-fingerprint:"+p.Where, "%s shows pin %q, but the certificate presented in handshakes has SPKI hash %q", p.Where, p.FP, sr.FP)
-					}
-				}
+				pinsAgree()
 				if sr.AddrProblem != "" {
 					div(i, "C05", "advertised-address", "%s", sr.AddrProblem)
 				}
@@ -228,6 +235,12 @@ func Replay(g *graph.G, walk []int, scratch string, depth int, seed int64, f For
 				return res, err
 			}
 			res.Labels[len(res.Labels)-1] += fmt.Sprintf("@%d:=%q", off, to)
+			cur = g.Edges[cands[0]].To
+		case "Expire":
+			// the cached certificate's validity ends: same key, certificate re-issued with NotAfter in the past
+			if err := ExpireCache(w.CertFile); err != nil {
+				return res, err
+			}
 			cur = g.Edges[cands[0]].To
 		case "Delete":
 			os.Remove(w.CertFile)
